@@ -82,7 +82,8 @@ def gen_value(rng, opt, tag):
     if opt in BOOL_OPTS:
         return True
     if opt in LIST_OPTS:
-        return [f"{tag[:1]}{rng.randint(1, 99999)}" + rng.choice(["", "-x", "A"]) for _ in range(rng.randint(1, 6))]
+        # account numbers as banks print them: also with a blank or other punctuation inside (never at the ends, never a comma)
+        return [f"{tag[:1]}{rng.randint(1, 99999)}" + rng.choice(["", "-x", "A", " 01", " 7 7", ";2", "=3", "#4", "%20"]) for _ in range(rng.randint(1, 6))]
     if opt == "ofxhome":
         return str(rng.randint(400, 999))
     if opt == "language":
@@ -112,11 +113,16 @@ def hist_value(rng, opt, r):
     return gen_value(rng, opt, f"r{r}")
 
 
+LIST_LAYOUTS = [", ", ",", " , ", ",\t", ",\n    ", ",  "]
+
+
 def cfg_text(v):
     if isinstance(v, bool):
         return "true" if v else "false"
     if isinstance(v, list):
-        return ", ".join(v)
+        # every way a person lays a list out in an ini file: tight, spaced, blank before the comma, tabs, one item per continuation line
+        sep = LIST_LAYOUTS[(len(v) + len(v[0]) if v else 0) % len(LIST_LAYOUTS)]
+        return sep.join(v)
     return str(v)
 
 
